@@ -123,11 +123,16 @@ def decode(ctx, flag_offset=19):
     it, outs, data = L.run_unmarshal(ctx, pol, data)
     hci = prog.cls('header.ContentHeader')
     rets = []
-    for o in outs:
-        if o.kind == 'return' and isinstance(o.value, tuple) and \
-                len(o.value) == 3 and isinstance(o.value[2], T.Ref):
-            ob = it.obj(o.state, o.value[2])
-            if ob.kind == 'inst' and ob.cls is hci:
-                rets.append((o, ob))
+    from . import framepaths as F
+    for o0 in outs:
+        if o0.kind != 'return':
+            continue
+        for r in F.split_returns(o0, it, data):
+            o = r.o
+            if isinstance(o.value, tuple) and len(o.value) == 3 and \
+                    isinstance(o.value[2], T.Ref):
+                ob = it.obj(o.state, o.value[2])
+                if ob.kind == 'inst' and ob.cls is hci:
+                    rets.append((o, ob))
     return {'interp': it, 'outs': outs, 'data': data, 'rets': rets,
             'policy': pol}
